@@ -19,13 +19,6 @@ Definition obs_ok (r : dres string) (o : dobs) : bool :=
 (* one case: annotation, observed unmarshaller class, observed marshaller class *)
 Definition dcase := (ity * dobs * dobs)%type.
 
-Record dtables := {
-  d_tbl : tables;
-  d_unm : handlers; d_unm_fb : rclass;
-  d_mar : handlers; d_mar_fb : rclass;
-  d_impl : list (string * string)
-}.
-
 (* root = true: through the public factory (a bare TypeVar is normalised first);
    root = false: _get_unmarshaller / _get_marshaller on a node *)
 Definition model_u (D : dtables) (root : bool) (t : ity) : dres string :=
